@@ -360,7 +360,10 @@ def c20(tier, seed):
                 **_seeds(seed + 7, k)) for k in range(2 if tier == "quick" else 8)]
         # nested calls and plain calls of the SAME functions carrying (mostly constant) activation flags: the helper nodes that hold
         # such constants are prefixed like everything else
-        + diff_jobs("C20", tier, seed + 3, dict(flags=0.45, nest=0.45, nest_flag=0.5, share_fns=0.8, const_flag=0.6, max_stmts=6), 2, scale=0.4, nj_scale=0.5),
+        + diff_jobs("C20", tier, seed + 3, dict(flags=0.45, nest=0.45, nest_flag=0.5, share_fns=0.8, const_flag=0.6, max_stmts=6), 2, scale=0.4, nj_scale=0.5)
+        # a DAG some of whose nodes are DAG OBJECTS (xn(inner_dag)) nested in an outer DAG returns what its direct call returns
+        + [dict(kind="env", pid="C20", scenarios=["reentrant"], n_cases=(60 if tier == "quick" else 500),
+                only=["dag_with_a_dag_object_as_node_function_wrong_when_*"], **_seeds(seed + 9, k)) for k in range(2 if tier == "quick" else 6)],
         level="exploration",
         rule=RULE_DIFF + "; nesting to depth 3, inner signatures with required and defaulted parameters, call forms supplying fewer / all "
         "parameters as constants or results, all return shapes, outer unpack / static index / pass-on, the SAME decorated functions used "
